@@ -323,6 +323,42 @@ def dwarf_parse(sh, le, ci):
     sh.held(n=n)
 
 
+RELOC_MACHINES = {3: 'R_386_', 62: 'R_X86_64_', 40: 'R_ARM_', 183: 'R_AARCH64_', 21: 'R_PPC64_', 20: 'R_PPC_', 22: 'R_390_', 8: 'R_MIPS_',
+                  258: 'R_LARCH_'}
+
+
+def reloc_names(sh):
+    """The code-to-name direction of the relocation tables, as a file of each machine sees it: for every code the registries
+    name with the machine's own prefix, describe_reloc_type on a file of that machine gives one of those names."""
+    from elftools.elf.elffile import ELFFile
+    from elftools.elf.descriptions import describe_reloc_type
+    n = 0
+    regs = registries()
+    for mach, prefix in RELOC_MACHINES.items():
+        byval = {}
+        for r in regs:
+            for k, v in r.items():
+                if k.startswith(prefix) and isinstance(v, int) and not (prefix == 'R_PPC_' and k.startswith('R_PPC64_')):
+                    byval.setdefault(v, set()).add(k)
+        for cls, le in ((32, True), (64, True), (64, False), (32, False)):
+            img, _ = elfgen.build(cls=cls, le=le, machine=mach, etype=1, sections=[elfgen.Sec('.text', 1, data=b'\0' * 4)])
+            ef = ELFFile(io.BytesIO(img))
+            for code, names in sorted(byval.items()):
+                got = describe_reloc_type(code, ef)
+                if not isinstance(got, str) or not got.startswith('R_'):
+                    continue            # no name in the library's table: unjudged here (a missing entry is not a wrong one)
+                if not reg_values(got):
+                    sh.count('relocation_names_only_the_library_has')       # another spelling (R_ARM_ALU_PCREL7_0): unjudged
+                    continue
+                n += 1
+                sh.sig(('reloc-name', mach, code))
+                if got not in names:
+                    sh.note_violation('C17-reloc:machine %d code %d described as %s, registry %s' % (mach, code, got, '/'.join(sorted(names))[:80]),
+                                      cls=cls, le=le)
+    sh.count('relocation_codes_described_per_machine', n)
+    return n
+
+
 def run_case(kind, idx, rng, sh):
     if kind == 'tables':
         pairs = live_tables()
@@ -344,6 +380,7 @@ def run_case(kind, idx, rng, sh):
                               if v == val and k.startswith('DW_OP_') and not k.endswith(('_lo_user', '_hi_user')))
                 if real:
                     sh.note_violation('C17-table:%s reports %#x as the range marker %s, registry operation %s' % (tab, val, n, '/'.join(real)))
+        judged += reloc_names(sh)
         sh.held(n=judged)
         sh.count('table_pairs', len(pairs))
         sh.count('table_pairs_judged', judged)
